@@ -599,3 +599,208 @@ Proof.
     destruct (negb (str_eqb p [PLUS]) && negb (str_eqb p t)); [reflexivity|].
     apply IH; exact Hlen.
 Qed.
+
+(* ====================================================================================
+   Round 4: re-entrant dispatch (a handler serves another message through the same or another
+   ServeMux before it returns).  The model is functional and Serve does not change the state, so a
+   nested call is just the sequence of its invocations inserted at that point of the outer loop;
+   the outer loop then continues with the OUTER topic.
+   ==================================================================================== *)
+
+(* ---------- re-entrant dispatch ---------- *)
+
+Section Nested.
+Variable acts : nat -> hact.
+
+(* the model satisfies the spec whenever the state holds the registrations R *)
+Lemma nserve_sound st R : (forall j, st j = mux_of (R j)) ->
+  forall fuel d i t, nspec acts R fuel d i t (serve_nested acts st fuel d i t).
+Proof.
+  intros Hst fuel; induction fuel as [|fuel IH]; intros d i t.
+  - apply NS with (hs := mux_serve (st i) t); [rewrite Hst; apply mux_dispatch|].
+    cbn [serve_nested]. induction (mux_serve (st i) t) as [|h hs IHl]; cbn [flat_map]; [constructor|].
+    change ((d, h) :: [] ++ flat_map (fun h0 => [(d, h0)]) hs) with ((d, h) :: ([] ++ flat_map (fun h0 => [(d, h0)]) hs)).
+    apply NL_cons; [|exact IHl]. apply NA_skip. intros fuel' j t' E; discriminate.
+  - apply NS with (hs := mux_serve (st i) t); [rewrite Hst; apply mux_dispatch|].
+    cbn [serve_nested]. induction (mux_serve (st i) t) as [|h hs IHl]; cbn [flat_map]; [constructor|].
+    cbn [app]. apply NL_cons; [|exact IHl].
+    destruct (acts h) as [[[trig j] t']|] eqn:Ea.
+    + destruct (str_eqb trig t) eqn:Et.
+      * apply str_eqb_eq in Et. subst trig. eapply NA_call; [exact Ea|apply IH].
+      * apply str_eqb_neq in Et. apply NA_skip. intros fuel' j' t'' _ E. rewrite Ea in E.
+        injection E as E1 E2 E3. contradiction.
+    + apply NA_skip. intros fuel' j' t'' _ E. rewrite Ea in E. discriminate.
+Qed.
+
+Scheme nspec_mind := Minimality for nspec Sort Prop
+  with nlist_mind := Minimality for nlist Sort Prop
+  with nact_mind := Minimality for nact Sort Prop.
+Combined Scheme nspec_mutind from nspec_mind, nlist_mind, nact_mind.
+
+Lemma at_depth_app d a b : at_depth d (a ++ b) = at_depth d a ++ at_depth d b.
+Proof. unfold at_depth. rewrite filter_app, map_app. reflexivity. Qed.
+
+Lemma at_depth_deeper d tr : (forall e, In e tr -> (d < fst e)%nat) -> at_depth d tr = [].
+Proof.
+  unfold at_depth. induction tr as [|e tr IH]; intros H; [reflexivity|].
+  cbn [filter]. assert (Hd : (d < fst e)%nat) by (apply H; left; reflexivity).
+  destruct (Nat.eqb (fst e) d) eqn:E; [apply Nat.eqb_eq in E; lia|].
+  apply IH. intros e' He'. apply H. right; exact He'.
+Qed.
+
+(* whatever the nested calls do, the invocations of the outer call itself are exactly the
+   handlers selected for the OUTER topic, in registration order; everything else is deeper *)
+Lemma nspec_outer_all R :
+  (forall fuel d i t tr, nspec acts R fuel d i t tr ->
+     (forall e, In e tr -> (d <= fst e)%nat) /\ select_rel t (R i) (at_depth d tr)) /\
+  (forall fuel d t hs tr, nlist acts R fuel d t hs tr ->
+     (forall e, In e tr -> (d <= fst e)%nat) /\ at_depth d tr = hs) /\
+  (forall fuel d h t sub, nact acts R fuel d h t sub ->
+     forall e, In e sub -> (d < fst e)%nat).
+Proof.
+  apply nspec_mutind.
+  - intros fuel d i t hs tr Hsel _ [Hge Hproj]. split; [exact Hge|]. rewrite Hproj. exact Hsel.
+  - intros fuel d t. split; [intros e []|reflexivity].
+  - intros fuel d t h hs sub tr _ Hsub _ [Hge Hproj]. split.
+    + intros e [<-|He]; [cbn [fst]; lia|]. apply in_app_or in He as [He|He].
+      * apply Hsub in He. lia.
+      * apply Hge; exact He.
+    + change ((d, h) :: sub ++ tr) with ([(d, h)] ++ sub ++ tr).
+      rewrite !at_depth_app, (at_depth_deeper d sub Hsub), Hproj.
+      unfold at_depth. cbn [filter fst]. rewrite Nat.eqb_refl. reflexivity.
+  - intros fuel d h t _ e [].
+  - intros fuel' d h t j t' sub _ _ [Hge _] e He. apply Hge in He. lia.
+Qed.
+
+Theorem nspec_outer R fuel d i t tr : nspec acts R fuel d i t tr -> select_rel t (R i) (at_depth d tr).
+Proof. intros H. apply (proj1 (nspec_outer_all R)) in H. apply H. Qed.
+
+(* the spec determines the trace *)
+Lemma nspec_functional_all R :
+  (forall fuel d i t tr, nspec acts R fuel d i t tr -> forall tr2, nspec acts R fuel d i t tr2 -> tr = tr2) /\
+  (forall fuel d t hs tr, nlist acts R fuel d t hs tr -> forall tr2, nlist acts R fuel d t hs tr2 -> tr = tr2) /\
+  (forall fuel d h t sub, nact acts R fuel d h t sub -> forall sub2, nact acts R fuel d h t sub2 -> sub = sub2).
+Proof.
+  apply nspec_mutind.
+  - intros fuel d i t hs tr Hsel _ IH tr2 H2. inversion H2 as [? ? ? ? hs2 ? Hsel2 Hl2]; subst.
+    rewrite (select_rel_functional _ _ _ _ Hsel2 Hsel) in Hl2. apply IH; exact Hl2.
+  - intros fuel d t tr2 H2. inversion H2; reflexivity.
+  - intros fuel d t h hs sub tr _ IHa _ IHl tr2 H2.
+    inversion H2 as [|? ? ? ? ? sub2 tr2' Ha2 Hl2]; subst.
+    rewrite (IHa _ Ha2), (IHl _ Hl2). reflexivity.
+  - intros fuel d h t Hno sub2 H2. inversion H2 as [|fuel' ? ? ? j t' ? Ea Hs]; subst; [reflexivity|].
+    exfalso. eapply Hno; [reflexivity|exact Ea].
+  - intros fuel' d h t j t' sub Ea _ IH sub2 H2.
+    inversion H2 as [? ? ? ? Hno|? ? ? ? j2 t2 ? Ea2 Hs2]; subst.
+    + exfalso. eapply Hno; [reflexivity|exact Ea].
+    + rewrite Ea in Ea2. injection Ea2 as <- <-. apply IH; exact Hs2.
+Qed.
+
+Theorem nspec_functional R fuel d i t tr1 tr2 :
+  nspec acts R fuel d i t tr1 -> nspec acts R fuel d i t tr2 -> tr1 = tr2.
+Proof. intros H1 H2. exact (proj1 (nspec_functional_all R) _ _ _ _ _ H1 _ H2). Qed.
+
+(* histories: the k-th operation of any interleaving of Handle and (re-entrant) Serve *)
+Lemma nmuxes_run_spec_gen fuel ops : forall (st : muxes) (R : nat -> list (str * nat)),
+  (forall j, st j = mux_of (R j)) ->
+  forall k, (k < length ops)%nat ->
+  exists e, nth_error (nmuxes_run acts fuel st ops) k = Some e /\
+    match nth_error ops k with
+    | None => False
+    | Some (OpHandle _ f _) => exists b, e = NvHandle b /\ (b = true <-> valid_filter f)
+    | Some (OpServe i t) =>
+        exists tr, e = NvServe tr /\
+          forall R', (forall j, R' j = R j ++ regs_on j (firstn k ops)) -> nspec acts R' fuel 0 i t tr
+    end.
+Proof.
+  induction ops as [|o ops IH]; intros st R Hst k Hk; [cbn [length] in Hk; lia|].
+  destruct k as [|k].
+  - destruct o as [i f h|i t]; cbn [nmuxes_run nth_error firstn regs_on].
+    + eexists; split; [reflexivity|]. eexists; split; [reflexivity|]. apply is_some_valid.
+    + eexists; split; [reflexivity|]. eexists; split; [reflexivity|].
+      intros R' HR'. apply nserve_sound. intros j. rewrite Hst, HR', app_nil_r. reflexivity.
+  - cbn [length] in Hk. assert (Hk' : (k < length ops)%nat) by lia.
+    destruct o as [i f h|i t]; cbn [nmuxes_run nth_error].
+    + set (R1 := fun j => if Nat.eqb j i then R j ++ [(f, h)] else R j).
+      destruct (IH (muxes_upd st i (mux_handle (st i) (f, h))) R1) with (k := k) as (e & He & Hspec);
+        [ | exact Hk' | ].
+      * intros j. unfold muxes_upd, R1. destruct (Nat.eqb j i) eqn:E; [|apply Hst].
+        apply Nat.eqb_eq in E. subst j. rewrite mux_of_snoc, Hst. reflexivity.
+      * exists e; split; [exact He|].
+        destruct (nth_error ops k) as [[i2 f2 h2|i2 t2]|]; [exact Hspec | | exact Hspec].
+        destruct Hspec as (tr & -> & Hsp). exists tr; split; [reflexivity|].
+        intros R' HR'. apply Hsp. intros j. rewrite HR'. cbn [firstn regs_on]. unfold R1.
+        rewrite (Nat.eqb_sym i j). destruct (Nat.eqb j i); [rewrite <- app_assoc|]; reflexivity.
+    + destruct (IH st R Hst k Hk') as (e & He & Hspec). exists e; split; [exact He|].
+      destruct (nth_error ops k) as [[i2 f2 h2|i2 t2]|]; [exact Hspec | | exact Hspec].
+      destruct Hspec as (tr & -> & Hsp). exists tr; split; [reflexivity|].
+      intros R' HR'. apply Hsp. intros j. rewrite HR'. reflexivity.
+Qed.
+
+Theorem nmuxes_run_spec fuel ops k : (k < length ops)%nat ->
+  exists e, nth_error (nmuxes_run acts fuel muxes_empty ops) k = Some e /\ nop_spec acts fuel ops k e.
+Proof.
+  intros Hk. destruct (nmuxes_run_spec_gen fuel ops muxes_empty (fun _ => [])) with (k := k) as (e & He & H);
+    [intros j; reflexivity | exact Hk | ].
+  exists e; split; [exact He|]. unfold nop_spec.
+  destruct (nth_error ops k) as [[i f h|i t]|]; [exact H | | exact H].
+  destruct H as (tr & -> & Hsp). exists tr; split; [reflexivity|]. apply Hsp. intros j; reflexivity.
+Qed.
+
+(* the clause of the property, for a Serve anywhere in a history, handlers re-dispatching or not:
+   the outer call's own invocations are exactly the handlers registered before it on that ServeMux
+   that select the OUTER topic, in registration order *)
+Corollary nmuxes_serve_outer fuel ops k i t : nth_error ops k = Some (OpServe i t) ->
+  exists tr, nth_error (nmuxes_run acts fuel muxes_empty ops) k = Some (NvServe tr) /\
+             nspec acts (fun j => regs_on j (firstn k ops)) fuel 0 i t tr /\
+             select_rel t (regs_on i (firstn k ops)) (at_depth 0 tr).
+Proof.
+  intros Hn. assert (Hk : (k < length ops)%nat) by (apply nth_error_Some; congruence).
+  destruct (nmuxes_run_spec fuel ops k Hk) as (e & He & Hs). unfold nop_spec in Hs. rewrite Hn in Hs.
+  destruct Hs as (tr & -> & Hsp). exists tr. split; [exact He|]. split; [exact Hsp|].
+  exact (nspec_outer _ _ _ _ _ _ Hsp).
+Qed.
+
+Theorem nop_spec_functional fuel ops k e1 e2 : nop_spec acts fuel ops k e1 -> nop_spec acts fuel ops k e2 -> e1 = e2.
+Proof.
+  unfold nop_spec. destruct (nth_error ops k) as [[i f h|i t]|]; [ | | intros []].
+  - intros (b1 & -> & H1) (b2 & -> & H2). f_equal.
+    destruct b1, b2; try reflexivity.
+    + symmetry. apply H2. apply H1. reflexivity.
+    + apply H1. apply H2. reflexivity.
+  - intros (t1 & -> & H1) (t2 & -> & H2). f_equal. eapply nspec_functional; eassumption.
+Qed.
+
+(* the executable predicate used on observed histories decides [nop_spec] *)
+Theorem nserve_expected_spec fuel ops k e : nserve_expected acts fuel ops k = Some e <-> nop_spec acts fuel ops k e.
+Proof.
+  assert (Hexp : forall e0, nserve_expected acts fuel ops k = Some e0 -> nop_spec acts fuel ops k e0).
+  { unfold nserve_expected, nop_spec. intros e0. destruct (nth_error ops k) as [[i f h|i t]|]; [ | |discriminate].
+    - intros H; injection H as <-. eexists; split; [reflexivity|apply is_some_valid].
+    - intros H; injection H as <-. eexists; split; [reflexivity|].
+      apply nserve_sound. intros j; reflexivity. }
+  split; [apply Hexp|]. intros Hs.
+  destruct (nserve_expected acts fuel ops k) as [e0|] eqn:E.
+  - f_equal. eapply nop_spec_functional; [apply Hexp; reflexivity|exact Hs].
+  - exfalso. unfold nserve_expected, nop_spec in *. destruct (nth_error ops k) as [[? ? ?|? ?]|]; try discriminate. exact Hs.
+Qed.
+
+(* without re-dispatching handlers the re-entrant model is the plain one *)
+Lemma serve_nested_plain st fuel d i t : (forall h, acts h = None) ->
+  serve_nested acts st fuel d i t = map (fun h => (d, h)) (mux_serve (st i) t).
+Proof.
+  intros Hn. destruct fuel; cbn [serve_nested]; induction (mux_serve (st i) t) as [|h hs IH];
+    cbn [flat_map map]; try reflexivity; rewrite ?Hn; cbn [app]; f_equal; exact IH.
+Qed.
+
+End Nested.
+
+(* the scenario of seeded change 7: handler 0 (on "c/+") re-dispatches "e/d" through the same mux
+   while serving "c/r"; the handler on "c/#" registered after it must still be invoked for "c/r",
+   the handler on "e/#" only inside the nested call *)
+Example ex_reentrant :
+  let acts := fun h => match h with O => Some ([99;47;114], O, [101;47;100]) | _ => None end in
+  nmuxes_run acts 2 muxes_empty
+    [OpHandle 0 [99;47;43] 0; OpHandle 0 [101;47;35] 1; OpHandle 0 [99;47;35] 2; OpServe 0 [99;47;114]]
+  = [NvHandle true; NvHandle true; NvHandle true; NvServe [(0,0); (1,1); (0,2)]%nat].
+Proof. reflexivity. Qed.
